@@ -42,7 +42,10 @@ def parseOptUsize (s : String) : Option (Option Nat) :=
 def dgSuffix (s : Datagrams.State) : String :=
   s!" | o={s.outgoingTotal}:{showQueue s.outgoing} i={s.recvBuffered}:{showQueue s.incoming} b={if s.sendBlocked then 1 else 0}"
 
-def DgSt.maxSize (c : DgSt) : Option (Option Nat) := Datagrams.maxSize c.mtu (overhead c.cidLen) c.peerLimit
+/-- the executor's connection never has 1-RTT keys; its local (handshake) CID has 8 bytes -/
+def dgScid : Option Nat := some 8
+
+def DgSt.maxSize (c : DgSt) : Option (Option Nat) := Datagrams.maxSize c.mtu (overhead c.cidLen dgScid) c.peerLimit
 
 def dgram (c : DgSt) : List String → DgSt × String
   | ["cfg", r, s] => match parseOptUsize r, parseUsize s with
@@ -57,7 +60,7 @@ def dgram (c : DgSt) : List String → DgSt × String
           | none => none
       match peer? with
       | none => (c, "bad-op")
-      | some p => ({ c with mtu := mtu, cidLen := cid, peerLimit := p }, s!"ok {overhead cid}" ++ dgSuffix c.st)
+      | some p => ({ c with mtu := mtu, cidLen := cid, peerLimit := p }, s!"ok {overhead cid dgScid}" ++ dgSuffix c.st)
     | _, _ => (c, "bad-op")
   | ["maxsize"] => match c.maxSize with
     | none => (c, "panic")
@@ -141,6 +144,15 @@ def dgram (c : DgSt) : List String → DgSt × String
       let r := match o with
         | .glue none => "none" ++ dgSuffix s'
         | .glue (some (d, u)) => s!"ok {boolStr d} {boolStr u}" ++ dgSuffix s'
+        | _ => "panic"
+      ({ c with st := s' }, r)
+  | ["ptx"] => match c.maxSize with
+    | none => (c, "panic")
+    | some max =>
+      let (s', o) := purgeGlue c.st max
+      let r := match o with
+        | .glue none => "ok 0" ++ dgSuffix s'
+        | .glue (some (_, u)) => s!"ok {if u then 1 else 0}" ++ dgSuffix s'
         | _ => "panic"
       ({ c with st := s' }, r)
   | ["poke", which, n] => match parseUsize n with
